@@ -8,7 +8,19 @@ import os, json, shutil, subprocess, time, glob, sys
 UNPACK_JUDGE = {"module": "Judge_Unpack", "cfg": "Judge_Unpack.cfg"}
 
 
+def unpack_trace_stage(tier):
+    return dict(kind="trace", name="traces", module="MC_Unpack", cfg="MC_Unpack_q.cfg", overrides={"MaxLen": "0"},
+                recorder="unpackrec", n=1500 if tier == "quick" else 20000, trace_module="Trace_Unpack", trace_cfg="Trace_Unpack.cfg",
+                timeout=3000)
+
+
 def unpack_stages(prop, tier, seed):
+    st = unpack_stages_a(prop, tier, seed)
+    st.append(unpack_trace_stage(tier))
+    return st
+
+
+def unpack_stages_a(prop, tier, seed):
     g = "0,%d,%d" % (seed * 3 + 1, seed * 3 + 2)
     va = ["-props", prop, "-gamma", g]
     if prop in ("C01", "C04"):
@@ -138,7 +150,12 @@ def builder_stages(prop, tier, seed):
     if prop == "C17":
         return [vers]
     if prop == "C12":
-        return [faults]
+        g = "0,%d" % (seed * 3 + 1)
+        ufault = dict(name="readfaults", module="MC_Unpack", cfg="MC_Unpack_q.cfg", family="unpack", judge=UNPACK_JUDGE, exhaustive=True,
+                      overrides={"MaxLen": "2", "Alphabet": "<- AlphaFidelityQ" if q else "<- AlphaFidelity"},
+                      vh_args=["-props", prop, "-gamma", g, "-mode", "faults"], timeout=3000)
+        wfault = pack_stage("writefaults", "rt", "none", prop, seed, extra_args=["-mode", "wfaults"])
+        return [faults, ufault, wfault]
     if prop == "C13":
         return [coal, base] if not q else [coal]
     if prop == "C09":
@@ -205,7 +222,11 @@ PROPS = {
                      "directory, plus a file-by-file comparison of the two trees",
                 assume=BUILDER_ASSUME),
     "C12": dict(stages=builder_stages, key="c12", wkey="w12", kfkey="kf12",
-                rule="cases = behaviours with every single (thorough: pair of) failing environment call (versions, source address, "
+                rule="(a) Unpack: every depth-<=2 archive of the fidelity alphabet, every 8th of them re-run with the reader failing and "
+                     "with the stream truncated at byte offsets of the gzip stream (quick: 24 offsets incl. the last 12 bytes; thorough: "
+                     "every offset): success must mean the whole archive, nothing outside dst may change; policy rejections must be "
+                     "IllegalSlugErrors; (b) Pack: every 16th round-trip case re-run with the writer failing at every byte offset of the "
+                     "slug: Pack must return an error; (c) Builder: cases = behaviours with every single (thorough: pair of) failing environment call (versions, source address, "
                      "fetch) and finder diagnostics (warning / error); the failure must be reported, the builder must refuse all "
                      "further use, no Bundle may come out, the directory must not open as a bundle at any callback boundary, "
                      "finder diagnostics must reach caller and tracer intact with rewritten file names",
@@ -337,6 +358,33 @@ def check(vc, prop, tier, seed, t0):
     flag_counts = {}
     try:
         for stage in P["stages"](prop, tier, seed):
+            if stage.get("kind") == "trace":
+                recs, stats = vc.run_trace_stage(vh, scratch, stage, seed)
+                acc = sum(1 for r in recs if r["accepted"])
+                states += stats["distinct"]
+                transitions += stats["generated"]
+                total += len(recs)
+                agree += acc
+                mismatch += len(recs) - acc
+                nontrivial += len(recs)
+                exhaustive = False
+                for r in recs:
+                    for src, vv in (("steps", r["steps"]), ("final", r["v"])):
+                        if P["key"] not in vv or vv[P["key"]]:
+                            continue
+                        kf = vv.get(P["kfkey"], "")
+                        l1v = r["l1"]["v"]
+                        if kf and not r["accepted"] and (l1v.get(P["key"], True) or not vc.subset(vv.get(P["wkey"], []), l1v.get(P["wkey"], []))):
+                            kf = ""
+                        k = prop + "|" + kf
+                        flag_counts[k] = flag_counts.get(k, 0) + 1
+                        flags.append(dict(prop=prop, witness=vv.get(P["wkey"], []), kf=kf, case=dict(trace=r["tr"], where=src, seed=seed),
+                                          stage=stage["name"], family="trace",
+                                          reproduced_by="recorded trace of the real code; predicate evaluated by the trace spec on the recorded state"))
+                stage_info.append(dict(stage=stage["name"], module=stage["trace_module"], recorded_traces=len(recs), events=stats.get("events"),
+                                       accepted=acc, rejected=len(recs) - acc, tlc=stats))
+                samples.append(dict(trace_result=recs[0]) if recs else {})
+                continue
             res, stats = vc.run_stage(vh, scratch, stage, seed)
             if res.get("infra", 0) > 0:
                 raise vc.Inconclusive("replayer infrastructure failures in stage %s: %s" % (stage["name"], res.get("notes")))
